@@ -137,6 +137,9 @@ func (d *distinctEngine) valueDistinct(f *ssa.Function, v ssa.Value, depth int) 
 		if parts := concatParts(x); parts != nil {
 			return d.disjointDistinct(f, parts, depth+1)
 		}
+		if sortedCompact(f, x) || collectedKeys(x) {
+			return true
+		}
 		return d.callDistinct(f, x, depth)
 	case *ssa.Const:
 		return x.Value == nil // nil slice
@@ -1565,4 +1568,65 @@ func structLiteralFields(v ssa.Value) ([]ssa.Value, bool) {
 		}
 	}
 	return out, len(out) > 0
+}
+
+func stdCallName(c *ssa.Call) (string, string) {
+	g := calleeOf(c)
+	if g == nil || pkgOf(g) == nil {
+		return "", ""
+	}
+	name := g.Name()
+	if o := g.Origin(); o != nil {
+		name = o.Name()
+	}
+	return pkgOf(g).Path(), name
+}
+
+// sortedCompact: slices.Compact(x) of a list that was sorted in its natural
+// order (slices.Sort / sort.Strings / sort.Ints on the same list, dominating
+// the call): equal elements are adjacent, so the result is duplicate-free.
+// Comparator-based forms (SortFunc / CompactFunc) are not accepted: nothing
+// says the comparator separates exactly the unequal elements.
+func sortedCompact(f *ssa.Function, c *ssa.Call) bool {
+	if p, n := stdCallName(c); p != "slices" || n != "Compact" || len(c.Call.Args) != 1 {
+		return false
+	}
+	arg := c.Call.Args[0]
+	if sc, ok := resolve(arg).(*ssa.Call); ok {
+		if p, n := stdCallName(sc); p == "slices" && n == "Sorted" {
+			return true
+		}
+	}
+	found := false
+	instrs(f, func(in ssa.Instruction) {
+		sc, ok := in.(*ssa.Call)
+		if !ok || len(sc.Call.Args) < 1 {
+			return
+		}
+		p, n := stdCallName(sc)
+		if !((p == "slices" && n == "Sort") || (p == "sort" && (n == "Strings" || n == "Ints" || n == "Float64s"))) {
+			return
+		}
+		if !equivValue(sc.Call.Args[0], arg) {
+			return
+		}
+		if sc.Block() == c.Block() || sc.Block().Dominates(c.Block()) {
+			found = true
+		}
+	})
+	return found
+}
+
+// collectedKeys: slices.Collect(maps.Keys(m)) / slices.Sorted(maps.Keys(m)).
+func collectedKeys(c *ssa.Call) bool {
+	p, n := stdCallName(c)
+	if p != "slices" || (n != "Collect" && n != "Sorted") || len(c.Call.Args) != 1 {
+		return false
+	}
+	kc, ok := resolve(c.Call.Args[0]).(*ssa.Call)
+	if !ok {
+		return false
+	}
+	p2, n2 := stdCallName(kc)
+	return p2 == "maps" && n2 == "Keys"
 }
